@@ -4,6 +4,8 @@ import FeatherModel.Model.PoolWrite
 import FeatherModel.Model.BootstrapWrite
 import FeatherModel.Spec.CodeDenote
 import FeatherModel.Spec.ClassParse
+import FeatherModel.Model.FrameWrite
+import FeatherModel.Spec.FrameDenote
 
 open Driver Sexp CodeWrite
 
@@ -169,15 +171,59 @@ def parseLv : Sexp → Option RLv
     pure ⟨← toNat? s, ← toNat? e, ← toJStr? n, ← toOption? toJStr? d, ← toOption? toJStr? g, ← uNat 16 i⟩
   | _ => none
 
+open FrameWrite (VType Frame)
+
+def parseVType : Sexp → Option VType
+  | atom "top" => some .top
+  | atom "int" => some .int
+  | atom "float" => some .float
+  | atom "double" => some .double
+  | atom "long" => some .long
+  | atom "null" => some .null
+  | atom "uthis" => some .uninitThis
+  | list [atom "obj", c] => do pure (.object (← toJStr? c))
+  | list [atom "uninit", l] => do pure (.uninit (← toNat? l))
+  | _ => none
+
+/-- `StackMapData`; the chop count is a `u8` in the Rust type -/
+def parseFrame : Sexp → Option Frame
+  | list [atom "same"] => some .same
+  | list [atom "same1", v] => do pure (.same1 (← parseVType v))
+  | list [atom "chop", k] => do pure (.chop (← uNat 8 k))
+  | list [atom "append", ls] => do pure (.append (← toListOf? parseVType ls))
+  | list [atom "full", ls, ss] => do pure (.full (← toListOf? parseVType ls) (← toListOf? parseVType ss))
+  | _ => none
+
+def parseFrameAt : Sexp → Option (Nat × Frame)
+  | list [k, f] => do pure ((← toNat? k), (← parseFrame f))
+  | _ => none
+
+/-- `(k frame)*` with strictly increasing instruction indices `k < n` → the frame of every instruction -/
+def framesByInsn (n : Nat) (xs : List (Nat × Frame)) : Option (List (Option Frame)) :=
+  let rec go (k : Nat) (fuel : Nat) (xs : List (Nat × Frame)) (acc : Array (Option Frame)) : Option (List (Option Frame)) :=
+    match fuel with
+    | 0 => if xs.isEmpty then some acc.toList else none
+    | fuel + 1 =>
+      match xs with
+      | (j, f) :: rest => if j = k then go (k + 1) fuel rest (acc.push (some f)) else if j < k then none else go (k + 1) fuel xs (acc.push none)
+      | [] => go (k + 1) fuel [] (acc.push none)
+  go 0 n xs #[]
+
 structure Req where
   insns : Array RInsn
   excs : List RExc
   lines : Option (List (Nat × Nat))
   lvs : Option (List RLv)
+  /-- `InstructionListEntry.frame` of every instruction -/
+  frames : List (Option Frame)
 
-def parseReq (i e l v : Sexp) : Option Req := do
+def parseReq (i e l v : Sexp) (f : Option Sexp := none) : Option Req := do
   let xs ← toList? i
-  pure ⟨← parseInsns xs, ← toListOf? parseExc e, ← toOption? (toListOf? parseLine) l, ← toOption? (toListOf? parseLv) v⟩
+  let insns ← parseInsns xs
+  let frames ← match f with
+    | none => some (List.replicate insns.size none)
+    | some f => do framesByInsn insns.size (← toListOf? parseFrameAt f)
+  pure ⟨insns, ← toListOf? parseExc e, ← toOption? (toListOf? parseLine) l, ← toOption? (toListOf? parseLv) v, frames⟩
 
 /-- `put_loadable` for the non-dynamic loadables -/
 def putConst (p : PoolWrite.Pool) : RConst → Option (Nat × PoolWrite.Pool)
@@ -291,6 +337,9 @@ structure Out where
   lnt : Option (List (List Nat))
   lvt : Option (List (List Nat))
   lvtt : Option (List (List Nat))
+  /-- the frames collected by `write_code` and the `StackMapTable` attribute (name index, body) written for them -/
+  frames : List (Nat × Frame)
+  smt : Option ClassWrite.Attr
   pool : PoolWrite.Pool
   /-- rows of the `BootstrapMethods` attribute: handle index, argument indices -/
   bsms : List (Nat × List Nat)
@@ -316,6 +365,12 @@ def classFile (r : Req) : R Out :=
     if r.excs.length > 65535 then .err else
     opt (putCatches p r.excs) fun (excs, p) =>
     opt (excRows lp excs) fun excR =>
+    -- StackMapTable: the first attribute of Code
+    let frames := FrameWrite.framesOf res r.frames
+    match FrameWrite.attr lp p frames with
+    | .error .err => .err
+    | .error .panic => .panic
+    | .ok (smtA, p) =>
     -- LineNumberTable
     let lnt : R (Tab × PoolWrite.Pool) :=
       match r.lines with
@@ -357,7 +412,7 @@ def classFile (r : Req) : R Out :=
     | .panic => .panic
     | .ok (lvttT, p) =>
     let sub (t : Tab) : List ClassWrite.Attr := match t with | none => [] | some (a, _) => [a]
-    let codeAttr : ClassWrite.CodeAttr := ⟨7, 9, res.code, excR, sub lntT ++ sub lvtT ++ sub lvttT⟩
+    let codeAttr : ClassWrite.CodeAttr := ⟨7, 9, res.code, excR, smtA.toList ++ sub lntT ++ sub lvtT ++ sub lvttT⟩
     opt (attr p "Code" (ClassWrite.codeBody codeAttr)) fun (codeA, p) =>
     -- `BootstrapMethods`, after all members: the handles enter the pool now
     let bsm : R (List ClassWrite.Attr × List (Nat × List Nat) × PoolWrite.Pool) :=
@@ -378,7 +433,8 @@ def classFile (r : Req) : R Out :=
     .ok {
       file := ClassWrite.classBytes img, img := img
       res := res, insns := is, excRows := excR
-      lnt := lntT.map (·.2), lvt := lvtT.map (·.2), lvtt := lvttT.map (·.2), pool := p, bsms := bsmRows }
+      lnt := lntT.map (·.2), lvt := lvtT.map (·.2), lvtt := lvttT.map (·.2), frames := frames, smt := smtA,
+      pool := p, bsms := bsmRows }
 
 /-! ## answers -/
 
@@ -394,12 +450,36 @@ def blob (b : Bytes) : Sexp :=
 
 def rows (t : List (List Nat)) : Sexp := ofList (ofList ofNat) t
 
+open FrameDecode (DType DFrame) in
+def ofDType : DType → Sexp
+  | .top => tag "top" | .int => tag "int" | .float => tag "float" | .double => tag "double" | .long => tag "long"
+  | .null => tag "null" | .uninitThis => tag "uthis"
+  | .object i => list [tag "obj", ofNat i]
+  | .uninit o => list [tag "uninit", ofNat o]
+
+open FrameDecode (DType DFrame) in
+def ofDFrame : DFrame → Sexp
+  | .same => list [tag "same"]
+  | .same1 v => list [tag "same1", ofDType v]
+  | .chop k => list [tag "chop", ofNat k]
+  | .append ls => list [tag "append", ofList ofDType ls]
+  | .full ls ss => list [tag "full", ofList ofDType ls, ofList ofDType ss]
+
+/-- the `StackMapTable` as the decoder of JVMS §4.7.4 reads it: `()` = no attribute, `((offset frame)*)`, `(unparsable)` -/
+def smtRows (a : Option ClassWrite.Attr) : Sexp :=
+  match a with
+  | none => list []
+  | some (_, body) =>
+    match FrameDecode.table body with
+    | none => list [tag "unparsable"]
+    | some ds => list [ofList (fun d => list [ofNat d.1, ofDFrame d.2]) ds]
+
 def codeWriteAns (r : Req) : Ans :=
   match classFile r with
   | .err => .err "e"
   | .panic => .err "panic"
   | .ok o => .ok (list [blob o.file, list [ofNat 7, ofNat 9], blob o.res.code, rows o.excRows,
-      ofOption rows o.lnt, ofOption rows o.lvt, ofOption rows o.lvtt])
+      ofOption rows o.lnt, ofOption rows o.lvt, ofOption rows o.lvtt, smtRows o.smt])
 
 /-! ## oracles on the model -/
 
@@ -488,6 +568,19 @@ def ldcForms : List (Nat × Nat × DInsn) → Bool
   | (_, len, .ldc i) :: ds => ((len == 2) == decide (i ≤ 255)) && ldcForms ds
   | _ :: ds => ldcForms ds
 
+/-- the `StackMapTable` body, read by the decoder of JVMS §4.7.4, denotes the frames of the request in the pool of the
+file: every frame at the position of the instruction that carries it, `Object` types at class entries of that name,
+`Uninitialized` types at the position of the labelled instruction (`Thm.C02.code_frames_write_read`); no frames, no
+attribute -/
+def framesDenoted (o : Out) : Bool :=
+  match o.smt with
+  | none => o.frames.isEmpty
+  | some (_, body) =>
+    !o.frames.isEmpty &&
+    match FrameDecode.table body with
+    | none => false
+    | some ds => FrameDenote.denotesAll o.res.label o.pool o.frames ds
+
 /-- `decode (write is)` denotes `is`: every instruction sits at its recorded position, every jump and switch arm lands
 on its target instruction (trampolines allowed), constants are the requested ones. The tables are rows of label
 positions by construction. -/
@@ -501,7 +594,23 @@ def oracleWriteRead (r : Req) : Ans :=
       else if !allConstAt o.pool r.insns.toList o.insns then .ok (list [tag "fail", tag "constant"])
       else if !allDynAt o.pool o.bsms r.insns.toList o.insns then .ok (list [tag "fail", tag "bootstrap"])
       else if !ldcForms ds then .ok (list [tag "fail", tag "ldc-form"])
+      else if !framesDenoted o then .ok (list [tag "fail", tag "frames"])
       else .ok (tag "pass")
+  | _ => .ok (tag "out-of-domain")
+
+/-- `Thm.C02.frames_write_fails_iff` / `code_frames_never_panic`, evaluated: when the class without its frames can be
+written and the pool has room for the classes of the `Object` types, the class with its frames is written exactly when
+the table is expressible (`tableOk`), and is refused with an error (never a panic) otherwise -/
+def oracleFramesFailIff (r : Req) : Ans :=
+  match classFile { r with frames := r.frames.map (fun _ => none) } with
+  | .ok o0 =>
+    let fs := FrameWrite.framesOf o0.res r.frames
+    if o0.pool.count + 2 * FrameDenote.objectsAll fs > 65535 then .ok (tag "out-of-domain") else
+    let expressible := FrameDenote.tableOk o0.res.label fs
+    match classFile r with
+    | .panic => .ok (list [tag "fail", tag "panic"])
+    | .ok _ => if expressible then .ok (tag "pass") else .ok (list [tag "fail", tag "accepted"])
+    | .err => if expressible then .ok (list [tag "fail", tag "refused"]) else .ok (tag "pass")
   | _ => .ok (tag "out-of-domain")
 
 def insnTargets : Insn → List Nat
@@ -515,6 +624,9 @@ def strictKeys : List (Int × Nat) → Bool
   | [_] => true
   | a :: b :: rest => decide (a.1 < b.1) && strictKeys (b :: rest)
 
+def frameVTypes : Frame → List VType
+  | .same1 v => [v] | .append ls => ls | .full ls ss => ls ++ ss | _ => []
+
 /-- the part of the domain of `oracle-wellformed` visible in the request: jumps and table starts designate
 instructions (not the end of the code), lookupswitch keys strictly increase -/
 def wellformedDomain (r : Req) : Bool :=
@@ -525,7 +637,16 @@ def wellformedDomain (r : Req) : Bool :=
     | _ => true) &&
   r.excs.all (fun e => e.start < n && e.handler < n) &&
   (match r.lines with | none => true | some ls => ls.all (·.1 < n)) &&
-  (match r.lvs with | none => true | some vs => vs.all (·.start < n))
+  (match r.lvs with | none => true | some vs => vs.all (·.start < n)) &&
+  -- JVMS §4.10.1.4: an `Uninitialized` type names the `new` instruction that created the object
+  r.frames.all (fun f => match f with
+    | none => true
+    | some f => (frameVTypes f).all fun v => match v with
+      | .uninit l => (match r.insns[l]? with | some (.clsOp 187 _) => true | _ => false)
+      | _ => true)
+
+def dframeTypes : FrameDecode.DFrame → List FrameDecode.DType
+  | .same1 v => [v] | .append ls => ls | .full ls ss => ls ++ ss | _ => []
 
 def dTargets : DInsn → List Int
   | .ifc _ a => [a] | .goto a => [a] | .jsr a => [a]
@@ -579,8 +700,11 @@ def oracleWellformed (r : Req) : Ans :=
               let expected : List (Nat × List (List Nat)) :=
                 (o.lnt.map (fun t => (2, t))).toList ++ (o.lvt.map (fun t => (5, t))).toList ++
                   (o.lvtt.map (fun t => (5, t))).toList
-              c.code != o.res.code || c.excRows != o.excRows || c.attrs.length != expected.length ||
-                !((c.attrs.zip expected).all fun (ae : ClassWrite.Attr × Nat × List (List Nat)) =>
+              -- the StackMapTable, when there is one, is the first attribute of Code
+              let tables := if o.smt.isSome then c.attrs.drop 1 else c.attrs
+              c.code != o.res.code || c.excRows != o.excRows || tables.length != expected.length ||
+                (o.smt.isSome && c.attrs.head? != o.smt) ||
+                !((tables.zip expected).all fun (ae : ClassWrite.Attr × Nat × List (List Nat)) =>
                     ClassParse.table ae.2.1 ae.1.2 == some ae.2.2)
             | none => true)
           | _ => true)
@@ -629,6 +753,17 @@ def oracleWellformed (r : Req) : Ans :=
       if !(((o.lvt.getD []) ++ (o.lvtt.getD [])).all fun row => match row with
           | [a, l, ni, di, _] => at_ a && (at_ (a + l) || a + l == n) && isUtf8 p ni && isUtf8 p di
           | _ => false) then fail "local-variable" else
+      -- StackMapTable (JVMS §4.7.4): named by a Utf8 entry, decodable to the last byte, every frame on an instruction
+      -- boundary, Object types at class entries, Uninitialized types at a `new` instruction
+      if !(match o.smt with
+          | none => true
+          | some (ni, body) => p.get ni == some (.utf8 FrameWrite.sStackMapTable) &&
+            (match FrameDecode.table body with
+            | none => false
+            | some fs => fs.all fun f => at_ f.1 && (dframeTypes f.2).all fun v => match v with
+              | .object i => isClass p i
+              | .uninit off => at_ off && o.res.code[off]? == some 0xbb
+              | _ => true)) then fail "stack-map" else
       .ok (tag "pass")
   | _ => .ok (tag "out-of-domain")
 
@@ -667,6 +802,19 @@ def handleC02 (op : String) (args : List Sexp) : Option Ans :=
   | "oracle-wellformed", [i, e, l, v] => do
     let r ← parseReq i e l v
     pure (oracleWellformed r)
+  -- the same with stack map frames attached to instructions: `((k frame)*)`, `k` strictly increasing
+  | "code-write", [i, e, l, v, f] => do
+    let r ← parseReq i e l v (some f)
+    pure (codeWriteAns r)
+  | "oracle-write-read", [i, e, l, v, f] => do
+    let r ← parseReq i e l v (some f)
+    pure (oracleWriteRead r)
+  | "oracle-wellformed", [i, e, l, v, f] => do
+    let r ← parseReq i e l v (some f)
+    pure (oracleWellformed r)
+  | "oracle-frames-fail-iff", [i, e, l, v, f] => do
+    let r ← parseReq i e l v (some f)
+    pure (oracleFramesFailIff r)
   | "pool-put", [es] => do
     let xs ← toList? es
     let is ← parseInsns xs
